@@ -33,15 +33,18 @@ def _encode_args(d):
 
 
 def _profile_collector(store, roots):
+    """names of the bisturi functions (and generated __pkts__ functions) entered while exploring"""
+    repo_root, scratch = roots
+
     def prof(frame, event, arg):
         if event == "call":
             co = frame.f_code
             fn = co.co_filename
-            for r in roots:
-                if fn.startswith(r):
-                    store.add((os.path.relpath(fn, r) if r == roots[0] else "__pkts__/" + os.path.basename(fn))
-                              + ":" + co.co_qualname if hasattr(co, "co_qualname") else co.co_name)
-                    break
+            name = getattr(co, "co_qualname", co.co_name)
+            if fn.startswith(repo_root):
+                store.add(os.path.relpath(fn, repo_root) + ":" + name)
+            elif fn.startswith(scratch) and (os.sep + "__pkts__" + os.sep) in fn:
+                store.add("__pkts__(generated):" + name)
     return prof
 
 
